@@ -90,6 +90,8 @@ def op_list(maxseq):
             # the own-node entry between the two others (an entry the receiver is ahead in, between two it may be behind in)
             ops.append(('recv', tuple(sorted(v.items())), 'psq'))
             ops.append(('recv', tuple(sorted(v.items())), 'qsp'))
+    for v in ({'p': 1}, {'p': 2}, {'p': 1, 'q': 1}, {'s': 0, 'p': 1}, {'s': 1, 'p': 2}, {'q': 1}):
+        ops.append(('pub+recv', tuple(sorted(v.items()))))
     for m in MALFORMED:
         ops.append(('bad', m))
     ops.append(('short-name',))
@@ -304,6 +306,49 @@ class World:
                 vec = self.decode_sync(w)
                 if vec is None or nz(vec) != nz(after):
                     bad('emitted-vector', f'sync Interest carries {vec}, local vector is {after}')
+        elif kind == 'pub+recv':
+            # the application publishes and, before the timer task gets its turn (same loop iteration), a sync Interest is handled
+            seq_before = self.inst.self_seq
+            v = dict(op[1])
+            if self.variant == 'cbpub' or ('s' in v and v['s'] > seq_before):
+                # (a vector sent before the publication cannot know it; the republishing application has its own search)
+                return viol
+            name = enc.Name.from_str(BASE) + [vec_component(v), ts.tlv(2, b'\x00' * 32)]
+            self.inst.new_data()
+            try:
+                self.inst.sync_handler(name, None, lambda d: True, {})
+            except Exception as e:  # noqa
+                from mc.vloop import tb_where
+                bad(f'handler-raises:{type(e).__name__}|pub+recv', f'sync_handler raised {e!r} ({tb_where(e)})')
+                return viol
+            self.loop.drain()
+            after = self.local()
+            want = dict(before)
+            want['s'] = seq_before + 1
+            accepted = len(v) > 0 and not ('s' in v and v['s'] > seq_before + 1)
+            if accepted:
+                for k, sq in v.items():
+                    want[k] = max(want.get(k, 0), sq)
+            if nz(after) != nz(want) or self.inst.self_seq != seq_before + 1:
+                bad('merge|pub+recv', f'publication followed at once by {v}: local vector {after}, expected {want}')
+            ints = self.new_interests()
+            if len(ints) > 1:
+                bad(f'publish-emission|pub+recv|n={len(ints)}', f'{len(ints)} sync Interests emitted')
+            announced = any(nz(self.decode_sync(w) or {}) == nz(after) for w in ints)
+            if not announced:
+                # not announced at once: then a suppression period must be running, at whose end the publication goes out
+                if self.inst.state.name != 'SyncSuppression':
+                    bad('publish-emission|pub+recv|lost', f'publication followed at once by {v}: nothing emitted and no suppression period running '
+                                                          f'(the announcement waits for the next periodic expiry)')
+                else:
+                    nxt = self.loop.next_timer_us()
+                    if nxt is not None:
+                        self.loop.advance_to_us(nxt)
+                        self.loop.drain()
+                    later = self.new_interests()
+                    if not any(nz(self.decode_sync(w) or {}) == nz(self.local()) for w in later):
+                        bad('publish-emission|pub+recv|lost-after-suppression', f'publication followed at once by {v}: not announced at the end of the suppression period either')
+            self.H = None if self.inst.state.name != 'SyncSuppression' else self.H
         elif kind == 'tick':
             self.jit.value = op[1]
             nxt = self.loop.next_timer_us()
@@ -480,7 +525,10 @@ def unit(arg):
                 acc.violation(sig, what + f'; history {list(hist)}', {'kind': 'bfs', 'variant': arg.get('variant', 'plain'), 'hist': [list(o) if o[0] != 'recv' else ['recv', [list(x) for x in o[1]]] + list(o[2:]) for o in hist]})
             if acc.evaluations % 400 == 1:
                 acc.sample({'history': [repr(o) for o in hist], 'state': summary})
-        res = explore_histories(WORLDS[arg.get('variant', 'plain')], ops, arg['depth'], [(first,)], on_t)
+        # the interleaved publish+receive operations are explored in histories of up to three operations
+        def allow(hist, op):
+            return len(hist) < 3 or (op[0] != 'pub+recv' and not any(h[0] == 'pub+recv' for h in hist))
+        res = explore_histories(WORLDS[arg.get('variant', 'plain')], ops, arg['depth'], [(first,)], on_t, expand_filter=allow)
         acc.notes['bfs_states'] += res['states']
     else:
         for tail in itertools.product(RELAY_OPS, repeat=arg['depth'] - 1):
